@@ -40,8 +40,9 @@ def rows_spec(c, rng):
         return {'sampled': False}
     k = SAMPLED_ROWS
     cols = {}
+    dens = {r: rng.choice([0.5, 0.5, 0.9, 0.1, 0.97]) for r in range(1, k + 1)}   # sparse, uniform and dense operand values
     for l in c.inputs:
-        s = set(r for r in range(1, k + 1) if rng.random() < 0.5)
+        s = set(r for r in range(1, k + 1) if rng.random() < dens[r])
         s.discard(1)  # row 1: all zeros
         s.add(2)      # row 2: all ones
         cols[l] = sorted(s)
